@@ -193,6 +193,9 @@ def classify_invalid(merged, err):
     if 'is not of type' in err and "/id" in err:
         return 'id-not-string'
     if "'id' is a required property" in err:
+        m = re.search(r'at /cells/(\d+)$', err)
+        if m and merged['cells'][int(m.group(1))].get('source', '').startswith('<span style="color:red">'):
+            return 'marker-id-missing'
         return 'id-missing'
     if re.search(r"'(outputs|execution_count)'(, '(outputs|execution_count)')* (was|were) unexpected\) at /cells/\d+$", err) or \
             re.search(r"^'(outputs|execution_count)' is a required property at /cells/\d+$", err):
